@@ -1799,6 +1799,14 @@ fn parse_expr_unchecked(
                             }
                         });
                     }
+                    // A vector has at most four components
+                    if swizzle_slots.len() > 4 {
+                        return Err(TyperError::InvalidSwizzle(
+                            composite_ty,
+                            member.node.clone(),
+                            member.get_location(),
+                        ));
+                    }
                     let vt = ir::get_swizzle_value_type(&swizzle_slots, vt);
                     let ty_unmod = if swizzle_slots.len() == 1 {
                         composite_ty_nomod
@@ -1845,6 +1853,14 @@ fn parse_expr_unchecked(
                                 ));
                             }
                         });
+                    }
+                    // A vector has at most four components
+                    if swizzle_slots.len() > 4 {
+                        return Err(TyperError::InvalidSwizzle(
+                            composite_ty,
+                            member.node.clone(),
+                            member.get_location(),
+                        ));
                     }
                     let vt = ir::get_swizzle_value_type(&swizzle_slots, vt);
                     // Lets say single element swizzles go to scalars
